@@ -715,6 +715,101 @@ async fn req_command_mid_request(ctx: &mut Ctx, cmd: &str, case: &Value) {
     }
 }
 
+/// REQ with two servers: the one holding the outstanding request closes. The failed recv ends
+/// that request: the next send is not refused as "already in progress", goes to the other
+/// server and is answered.
+async fn req_server_closes(ctx: &mut Ctx, how: &str, case: &Value) {
+    let mut sock = Sock::new("REQ", None);
+    let mut servers = Vec::new();
+    for k in 0..2 {
+        match Peer::attach(&sock, "REP", Some(format!("srv{k}").as_bytes())).await {
+            Ok(p) => servers.push(p),
+            Err(_) => {
+                ctx.inconclusive("C08 attach".into());
+                return;
+            }
+        }
+    }
+    if !matches!(sim::complete(sock.send(&rc::tagged(1, 1, &[2]))).await, Ok(Ok(()))) {
+        ctx.inconclusive("C08 req_server_closes: first send failed".into());
+        return;
+    }
+    let holder = if servers[0].out_msgs().map(|m| !m.is_empty()).unwrap_or(false) { 0 } else { 1 };
+    servers[holder].conn.close_full(if how == "reset" { crate::pipe::EndKind::Reset } else { crate::pipe::EndKind::Eof });
+    let first = recv_now(&mut sock).await;
+    if !matches!(first, Some(Err(_))) {
+        ctx.violation_with("C08/req/recv-after-server-closed", format!("the server holding the request closed ({how}); recv gave {first:?}"), case.clone());
+        return;
+    }
+    let q2 = rc::tagged(1, 2, &[2]);
+    match sim::complete(sock.send(&q2)).await {
+        Ok(Ok(())) => {}
+        other => {
+            ctx.violation_with(
+                "C08/req/send-refused-although-nothing-is-outstanding",
+                format!("the server holding request 1 closed ({how}) and recv reported it; the next send, with another server connected, gave {other:?}"),
+                case.clone(),
+            );
+            return;
+        }
+    }
+    let other = 1 - holder;
+    let mut w = vec![vec![]];
+    w.extend(rc::tagged(100, 2, &[1]));
+    servers[other].send(&w);
+    match recv_now(&mut sock).await {
+        Some(Ok(m)) if rc::parse_tag(&m, 0).map(|t| t.seq == 2).unwrap_or(false) => ctx.count("req_requests_served_after_the_first_server_closed"),
+        other => ctx.violation_with("C08/req/reply-paired-with-the-wrong-request", format!("reply to request 2 from the surviving server: {other:?}"), case.clone()),
+    }
+}
+
+/// One REP serving a routed peer (DEALER sending [id, "", body]) and a plain REQ client: the
+/// routed request is received and left unanswered, the plain one is received and answered:
+/// the reply carries the envelope of the request being answered, nothing of the other one.
+async fn rep_mixed_clients(ctx: &mut Ctx, case: &Value) {
+    let mut sock = Sock::new("REP", None);
+    let (Ok(x), Ok(y)) = (Peer::attach(&sock, "DEALER", Some(b"routed")).await, Peer::attach(&sock, "REQ", Some(b"plain")).await) else {
+        ctx.inconclusive("C08 attach".into());
+        return;
+    };
+    let mut wx: Frames = vec![b"hop-id".to_vec(), vec![]];
+    wx.extend(rc::tagged(1, 1, &[3]));
+    x.send(&wx);
+    if !matches!(recv_now(&mut sock).await, Some(Ok(_))) {
+        ctx.inconclusive("C08 rep_mixed: routed request not received".into());
+        return;
+    }
+    let mut wy: Frames = vec![vec![]];
+    wy.extend(rc::tagged(2, 1, &[3]));
+    y.send(&wy);
+    match recv_now(&mut sock).await {
+        Some(Ok(m)) if rc::parse_tag(&m, 0).map(|t| t.origin == 2).unwrap_or(false) => {}
+        other => {
+            ctx.violation_with("C08/rep/recv-result-differs-from-state-machine", format!("plain request after an unanswered routed one: {other:?}"), case.clone());
+            return;
+        }
+    }
+    let reply = rc::tagged(3, 1, &[2]);
+    let xb = x.conn.tap_len();
+    let r = sim::complete(sock.send(&reply)).await;
+    let mut want: Frames = vec![vec![]];
+    want.extend(reply.clone());
+    if !matches!(r, Ok(Ok(()))) || y.out_msgs().ok() != Some(vec![want.clone()]) || x.conn.tap_len() != xb {
+        ctx.violation_with(
+            "C08/rep/reply-envelope-of-another-request",
+            format!(
+                "REP received a routed request (unanswered), then a plain REQ client's request, and answered: send gave {r:?}; the plain client received {:?}, expected exactly {}; bytes to the routed peer: {}",
+                y.out_msgs().map(|v| v.iter().map(|m| rc::frames_summary(m)).collect::<Vec<_>>()),
+                rc::frames_summary(&want),
+                x.conn.tap_len() - xb
+            ),
+            case.clone(),
+        );
+        return;
+    }
+    ctx.count("rep_mixed_routed_and_plain_clients");
+}
+
 /// REP: the application gives up on a reply that waits for a client that does not read;
 /// the client reads again and asks again: it is still served.
 async fn rep_abandoned_send(ctx: &mut Ctx, size: usize, case: &Value) {
@@ -865,6 +960,10 @@ impl Prop for C08 {
         for cmd in ["ping", "ready"] {
             v.push(json!({"kind": "req_cmd_mid", "cmd": cmd}));
         }
+        for how in ["close", "reset"] {
+            v.push(json!({"kind": "req_server_closes", "how": how}));
+        }
+        v.push(json!({"kind": "rep_mixed"}));
         for size in [100usize, 5_000, 300_000] {
             v.push(json!({"kind": "rep_abandoned", "size": size}));
         }
@@ -879,6 +978,14 @@ impl Prop for C08 {
     fn run(&self, case: &Value, ctx: &mut Ctx) {
         ctx.eval(hash_str(&case.to_string()), true);
         match s(case, "kind") {
+            "req_server_closes" => {
+                ctx.sample("req_server_closes", || case.clone());
+                sim::run(req_server_closes(ctx, s(case, "how"), case));
+            }
+            "rep_mixed" => {
+                ctx.sample("rep_mixed", || case.clone());
+                sim::run(rep_mixed_clients(ctx, case));
+            }
             "req_cmd_mid" => {
                 ctx.sample("req_cmd_mid", || case.clone());
                 sim::run(req_command_mid_request(ctx, s(case, "cmd"), case));
@@ -929,6 +1036,8 @@ impl Prop for C08 {
         vec![
             ("req_sequences", 126 * 6),
             ("req_command_frames_mid_request", 2),
+            ("req_requests_served_after_the_first_server_closed", 2),
+            ("rep_mixed_routed_and_plain_clients", 1),
             ("rep_replies_delivered_after_an_abandoned_send", 2),
             ("rep_sequences", 126 * 2),
             ("req_out_of_turn_sends", 100),
